@@ -442,5 +442,12 @@ func famSign(tr *Trace, scratch string, seed int64, tier string, repo string) M 
 		}
 		emit()
 	}
-	return M{"cases": len(cases)}
+	last := 0
+	for _, sc := range cases {
+		if sc.id > last {
+			last = sc.id
+		}
+	}
+	nrot := famSignRotation(tr, &last, scratch)
+	return M{"cases": len(cases), "key_rotations": nrot}
 }
